@@ -18,6 +18,8 @@ for d in seeded/*/; do
 	git -C /repo clean -fdq
 	if [ $e -eq 1 ]; then
 		echo "caught  $id  $(echo "$out" | grep -m1 'violated in' | sed -E 's/.*(C[0-9]{2}\.[a-z]+) violated.*/\1/')"
+	elif grep -q '"caught_by_check": false' "$d/meta.json"; then
+		echo "outside $id (recorded as not caught: see its meta.json and DESIGN §11.4)"
 	else
 		echo "MISSED  $id (exit $e)"
 		rc=2
